@@ -210,6 +210,64 @@ func c03ForIn(w *run.Worker) {
 	}
 }
 
+// c03ForInAgain: a for-in statement executed several times (inside an outer loop, three-clause or
+// for-in) while the names its iterable mentions change: every execution iterates over the values of
+// that moment, in order.
+func c03ForInAgain(w *run.Worker) {
+	I, S, Id := rt.Int, rt.Str, rt.Id
+	iters := append(c03Iterables(),
+		func() *rt.Node { return rt.List(Id("x"), I(1)) },
+		func() *rt.Node { return rt.List(rt.List(Id("x"), I(1)), rt.List(Id("o"), I(2))) },
+		func() *rt.Node { return rt.List(rt.Map(S("k"), Id("x"))) },
+		func() *rt.Node { return rt.List(S("s"), rt.List(rt.List(Id("x")))) },
+		func() *rt.Node { return rt.List(rt.Bin("+", Id("x"), I(1))) },
+		func() *rt.Node { return rt.List(Id("lst"), Id("x")) },
+		func() *rt.Node { return rt.List(rt.Index("lst", I(0)), rt.List(rt.Index("lst", I(0)))) },
+		func() *rt.Node { return rt.Map(S("a"), Id("x")) },
+		func() *rt.Node { return rt.List(rt.List(S("pk"), Id("pk"))) },
+		func() *rt.Node { return rt.List(rt.List(I(1), I(2)), rt.List(I(3))) },
+	)
+	inner := []func() []*rt.Node{
+		func() []*rt.Node { return []*rt.Node{rt.Call("p", Id("v"))} },
+		func() []*rt.Node {
+			return []*rt.Node{rt.If(rt.Bin("==", Id("v"), rt.List(I(20), I(1))), rt.Block(rt.Continue())), rt.Call("p", Id("v"), Id("x"))}
+		},
+		// the body writes into the element it was handed
+		func() []*rt.Node {
+			return []*rt.Node{rt.Call("p", Id("v")), rt.If(rt.Bin("==", Id("o"), I(1)), rt.Block(rt.Assign("=", Id("v"), I(0))))}
+		},
+	}
+	outers := []func(body []*rt.Node) *rt.Node{
+		func(body []*rt.Node) *rt.Node { return rt.ForIn("o", rt.List(I(1), I(2), I(3)), rt.Block(body...)) },
+		func(body []*rt.Node) *rt.Node {
+			return rt.For(rt.Assign("=", Id("o"), I(1)), rt.Bin("<", Id("o"), I(4)), rt.Assign("=", Id("o"), rt.Bin("+", Id("o"), I(1))), rt.Block(body...))
+		},
+	}
+	for _, it := range iters {
+		for _, in := range inner {
+			for _, out := range outers {
+				if !w.Take() {
+					continue
+				}
+				body := []*rt.Node{
+					rt.Assign("=", Id("x"), rt.Bin("*", Id("o"), I(10))),
+					rt.Assign("=", rt.Index("lst", I(0)), Id("x")),
+					rt.Call("add_key", Id("pk"), Id("x")),
+					rt.ForIn("v", it(), rt.Block(in()...)),
+				}
+				stmts := []*rt.Node{
+					rt.Assign("=", Id("x"), I(0)),
+					rt.Assign("=", Id("lst"), rt.List(I(5), I(6), I(7))),
+					rt.Assign("=", Id("mp"), rt.Map(S("k1"), I(1), S("k2"), I(2))),
+					out(body),
+					rt.Call("p", Id("x"), Id("v"), Id("o"), Id("lst")),
+				}
+				c03Exec(w, "for-in-again", stmts)
+			}
+		}
+	}
+}
+
 func renameIdent(n *rt.Node, from, to string) {
 	if n == nil {
 		return
@@ -436,6 +494,7 @@ func c03Structural(w *run.Worker) {
 func c03Run(w *run.Worker) {
 	c03Truthiness(w)
 	c03ForIn(w)
+	c03ForInAgain(w)
 	c03Structural(w)
 }
 
@@ -468,6 +527,7 @@ func init() {
 		Level: "model_checking",
 		Rule: "(A) every ordered pair of 29 condition representatives (incl. floats of magnitude 1e-20, 3e-300 and the smallest denormal: truthy) (all truthiness classes; literals, variables, point keys, a tag, an absent name) in if/elif/else, and each as for-condition; " +
 			"(B) 17 iterables (lists, strings incl. multi-byte, 0/1/2-key maps, point values, non-iterables) x 4 loop-variable names (new, an outer variable, `_`, a point key) x 11 bodies (continue, break, nested loop, shadowing, mutation during iteration, body-locals read before assignment); " +
+			"(B2) 27 iterables (the 17 above + list and map literals that mention names at depth 1..3, index expressions, point keys) x 3 bodies inside an outer for-in / three-clause for that changes those names between the executions of the inner for-in; " +
 			"(C) every program of total size <=3 statements (thorough: also size 4 over 6 of the simple statements and 12 of the for shapes), nesting <=3, over {probe(x,y), probe(pk,_), x=x+1, y=7, x+=10, pk=x, pk=nil, n0+=5 (a name that is only a point key), x=x/n0 (a run-time error while n0 is 0), break, continue} x if / if-else / if-elif-else x the 16 three-clause for shapes (init absent|y=0, condition absent|x<2, post absent|x=x+1|z=x|a post clause reading y) x 3 for-in forms, final probe of x, y, pk, z, n0; " +
 			"ordered probe trace + final point compared with the reference interpreter; map iteration order is tried in both orders; after EVERY program a name-reading canary script (loaded once) runs with no load in between and must see only the point's keys and nil",
 		Assumptions: []string{"non-terminating programs are cut by a signal after 3000 polls (real) / 40000 steps (reference) and compared as trace prefixes"},
